@@ -42,12 +42,24 @@ def schemes(quick):
     def mgf_sha1(x, y):
         return pss.MGF1(x, y, B.libhash("sha1"))
     out["pss-mgf1sha1/rsa1024"] = (lambda: pss.new(RSA.libkey(rk), mask_func=mgf_sha1, rand_func=_const_rand), hin(hs))
-    for kn in ("p256", "dsa1024_160") if quick else ("p256", "p521", "p224", "dsa1024_160", "dsa2048_256"):
+    if not quick:
+        # thorough tier: more moduli (2048 bits; 1029 bits = a generated key with 8k+5 bits), PSS with the longest salt
+        rk3 = RSA._KEYS["rsa2048e65537"]
+        rk4 = RSA._KEYS["rsa1029e65537"]
+        out["pkcs1_15/rsa2048"] = (lambda: pkcs1_15.new(RSA.libkey(rk3)), hin(("sha512", "md5", "sha3_384")))
+        out["pss-default/rsa2048"] = (lambda: pss.new(RSA.libkey(rk3), rand_func=_const_rand), hin(("sha512", "sha1", "sha3_224")))
+        out["pkcs1_15/rsa1029"] = (lambda: pkcs1_15.new(RSA.libkey(rk4)), hin(hs))
+        out["pss-salt94/rsa1029"] = (lambda: pss.new(RSA.libkey(rk4), salt_bytes=63, rand_func=_const_rand),
+                                     hin(("sha512", "sha224", "sha3_256")))
+    for kn in ("p256", "dsa1024_160") if quick else ("p256", "p521", "p224", "dsa1024_160", "dsa2048_256",
+                                                     "p192", "p384", "dsa2048_224", "dsa3072_256"):
         kd = DSS._KEYS[kn]
         dh = ("sha256", "sha512", "sha224")
         out["dss-rfc6979/" + kn] = (lambda kd=kd: LDSS.new(DSS.libkey(kd), "deterministic-rfc6979"), hin(dh))
         out["dss-rfc6979-der/" + kn] = (lambda kd=kd: LDSS.new(DSS.libkey(kd), "deterministic-rfc6979", "der"), hin(dh))
         out["dss-fips/" + kn] = (lambda kd=kd: LDSS.new(DSS.libkey(kd), "fips-186-3", randfunc=_const_rand), hin(dh))
+        if not quick:
+            out["dss-fips-der/" + kn] = (lambda kd=kd: LDSS.new(DSS.libkey(kd), "fips-186-3", "der", randfunc=_const_rand), hin(dh))
     for cv in ("ed25519", "ed448"):
         kd = ED._KEYS[cv]
         out["eddsa-pure/" + cv] = (lambda kd=kd: eddsa.new(ED.libpriv(kd), "rfc8032"), lambda i: MSG[i])
@@ -55,7 +67,25 @@ def schemes(quick):
                                   lambda i, cv=cv: ED.lib_input(cv, i != 1, MSG[i]))   # prehash, pure, prehash
         out["eddsa-prehash/" + cv] = (lambda kd=kd: eddsa.new(ED.libpriv(kd), "rfc8032"),
                                       lambda i, cv=cv: ED.lib_input(cv, True, MSG[i]))
+        if not quick:
+            out["eddsa-ctx255/" + cv] = (lambda kd=kd: eddsa.new(ED.libpriv(kd), "rfc8032", context=bytes(range(255))),
+                                         lambda i, cv=cv: ED.lib_input(cv, i == 1, MSG[i]))   # pure, prehash, pure
     return out
+
+
+# thorough tier: scheme objects whose histories are explored one call deeper (the cheapest calls of each family)
+DEPTH5 = ("pkcs1_15/rsa1024", "pss-default/rsa1024", "pss-salt0/rsa1025", "pss-mgf1sha1/rsa1024",
+          "dss-rfc6979/dsa1024_160", "dss-rfc6979-der/dsa1024_160", "dss-fips/dsa1024_160", "dss-fips-der/dsa1024_160",
+          "dss-rfc6979/p256", "dss-fips/p256", "eddsa-pure/ed25519", "eddsa-ctx/ed25519", "eddsa-prehash/ed25519")
+
+
+def depth_of(name, quick):
+    return 3 if quick else 5 if name in DEPTH5 else 4
+
+
+def expected_histories(quick):
+    """number of histories the plan contains: per scheme every non-empty sequence of up to depth calls"""
+    return sum(sum(len(ALPHABET) ** d for d in range(1, depth_of(name, quick) + 1)) for name in schemes(quick))
 
 
 # alphabet: ("sign", i) | ("verify", i, j): verify signature i with input j (authentic iff i == j)
@@ -106,6 +136,10 @@ def run_history(name, factory, mk, sigs, table, hist, acc):
 def worker(shards):
     acc = Acc()
     for name, quick, depth, first in shards:
+        # `first` is one call (quick tier and depth-4 objects: every history that starts with it) or, for the objects explored to
+        # depth 5, a prefix of one or two calls: (("sign", 0),) alone stands for that single-call history, a two-call prefix for
+        # every history of 2..depth calls that starts with it
+        prefix = (tuple(first),) if isinstance(first[0], str) else tuple(tuple(o) for o in first)
         factory, mk = schemes(quick)[name]
         sigs, table = fresh_table(factory, mk)
         # sanity of the alphabet itself: authentic verifies accept, crossed ones are refused
@@ -115,24 +149,46 @@ def worker(shards):
                 if table[op][0] != want:
                     acc.error("reuse alphabet of %s: fresh %s gives %s" % (name, opname(op), table[op][0]))
         nh = 0
-        for d in range(1, depth + 1):
-            for rest in itertools.product(ALPHABET, repeat=d - 1):
-                hist = (first,) + rest
+        for d in range(len(prefix), depth + 1):
+            for rest in itertools.product(ALPHABET, repeat=d - len(prefix)):
+                hist = prefix + rest
                 run_history(name, factory, mk, sigs, table, hist, acc)
                 nh += 1
         acc.count("reuse_histories", nh)
-        acc.seen("classes", ("reuse", name, first[0], depth))
+        acc.seen("classes", ("reuse", name, prefix[0][0], depth))
         acc.seen("reuse_schemes", name)
+        acc.seen("reuse_depths", (name, depth_of(name, quick)))
     return acc
 
 
+# measured cost of one call (ms, mixed sign / verify); thorough tier only (balancing the shards)
+CALL_MS = {"rsa1024": 0.6, "rsa1025": 0.5, "rsa1029": 0.6, "rsa2048": 1.6, "dsa1024_160": 0.45, "dsa2048_224": 1.1, "dsa2048_256": 1.2,
+           "dsa3072_256": 2.6, "p192": 1.3, "p224": 1.6, "p256": 1.2, "p384": 3.4, "p521": 5.4, "ed25519": 1.3, "ed448": 3.8}
+
+
 def plan(quick):
-    depth = 3 if quick else 4
     out = []
+    if quick:
+        depth = 3
+        for name in schemes(quick):
+            slow = 4.0 if ("ed448" in name or "p521" in name or "dsa2048" in name) else 1.0
+            for first in ALPHABET:
+                out.append((0.002 * slow * sum(9 ** k for k in range(depth)) * depth, (name, quick, depth, first)))
+        return out
+    na = len(ALPHABET)
     for name in schemes(quick):
-        slow = 4.0 if ("ed448" in name or "p521" in name or "dsa2048" in name) else 1.0
-        for first in ALPHABET:
-            out.append((0.002 * slow * sum(9 ** k for k in range(depth)) * depth, (name, quick, depth, first)))
+        depth = depth_of(name, quick)
+        ms = CALL_MS[name.split("/")[1]] / 1000.0
+        if depth <= 4:
+            calls = sum(d * na ** (d - 1) for d in range(1, depth + 1))
+            for first in ALPHABET:
+                out.append((ms * calls, (name, quick, depth, first)))
+        else:
+            calls = sum(d * na ** (d - 2) for d in range(2, depth + 1))
+            for first in ALPHABET:
+                out.append((ms, (name, quick, 1, (first,))))
+                for second in ALPHABET:
+                    out.append((ms * calls, (name, quick, depth, (first, second))))
     return out
 
 
